@@ -102,8 +102,7 @@ def dupReply : Bytes := [0,7, 0x81,0x80, 0,1, 0,0, 0,0, 0,0, 1,97, 0, 0,1, 0,1]
 
 macro "up_eval" : tactic => `(tactic|
   simp [runLoop, unitStep, deliver, qget, qset, qdel, dupReply, unpackMsg, sliceFrom, unpackQuestions, unpackResources,
-    unpackQuestion, unpackName, nameLoop, hopLimit, nameCap, MosVerif.Facts.name_hopLimit,
-    MosVerif.Facts.name_lenLimit, Bind.bind, Res.bind, be16, u16At, headerOfBits, testBit])
+    unpackQuestion, unpackName, nameLoop, hopLimit, nameCap, Bind.bind, Res.bind, be16, u16At, headerOfBits, testBit])
 
 /-- Non-vacuity of the distinction: with a blocking hand-over (`resChan <- r` without `default:`) the same
     reply sent twice wedges the loop when the owner of the id does not receive — the second copy finds the
